@@ -132,7 +132,7 @@ def handle (l : Line) : IO Unit := do
   | "pr" => handlePr l
   | "tab" =>
     IO.println s!"obs {l.id} minp={showList Nothing.uTestMinP}"
-    IO.println s!"spec {l.id} minp={Spec.MathSpec.judgeMinP Nothing.uTestMinP}"
+    IO.println s!"spec {l.id} minp={Spec.MathSpec.judgeMinP (bitsList (l.getD "itab"))}"
   | "uts" =>
     let on := Nothing.uTestSamples (bitsD l "alpha")
     IO.println s!"obs {l.id} need={on.1.show}:{on.2}"
